@@ -52,6 +52,10 @@ type C15Vote struct {
 	Flag int32
 	Ext  []byte
 	Sig  []byte
+	// the power DECLARED in the entry (cometabci.Validator.Power): written by whoever submits the message,
+	// covered by no signature, never read by the unchanged code - not part of the model's vote
+	Decl    int64
+	DeclSet bool
 	// what the model is told (computed independently of the implementation)
 	AddrID   uint64
 	SigOK    bool
@@ -589,6 +593,14 @@ func (ce *c15Env) monitor(rep *Report, step int, o C15Op, before, after c15State
 		c15SigCount[sig]++
 		if c15SigCount[sig] > 2 { // at most two reports per signature and run, so that different kinds stay visible
 			return
+		}
+		if o.Kind == "oracle" && o.CommitOK {
+			// the unsigned, submitter-controlled fields of the entries are not part of the model's op text
+			var decl []string
+			for _, v := range o.Votes {
+				decl = append(decl, fmt.Sprintf("validator %d: declared power %d, flag %d, signature verified by the harness %v (%s)", v.AddrID, v.Decl, v.Flag, v.SigOK, v.Note))
+			}
+			detail = map[string]interface{}{"detail": detail, "entries_of_last_update": decl}
 		}
 		rep.Violate(Violation{Case: ce.ID, Step: step, What: what, Sig: sig, Ops: ce.history(step), Detail: detail})
 	}
@@ -1131,13 +1143,16 @@ func (g *c15Gen) oracleOp() C15Op {
 			g.attack--
 		}
 	}
+	if specKind < 0 && dev == 0 && !foreign && len(src) >= 4 && g.attack == 0 && r.Chance(7) {
+		shape = 7
+	}
 	switch specKind {
 	case 0:
 		shape = 6 // the discarded set = the signers (a lower-power subset of the committed set)
 	case 1:
 		shape = 0 // the discarded set has a much HIGHER total: an all-honest commit must still pass
 	}
-	notes := []string{"all-honest", "subset", "perturbed", "dup-attack", "unsigned-mix", "retired-only", "discarded-subset"}
+	notes := []string{"all-honest", "subset", "perturbed", "dup-attack", "unsigned-mix", "retired-only", "discarded-subset", "forged-zero-power"}
 	o.Note = notes[shape]
 	if foreign {
 		o.Note = "foreign-set+" + o.Note
@@ -1158,6 +1173,36 @@ func (g *c15Gen) oracleOp() C15Op {
 	}
 	var spec []c15Entry
 	switch shape {
+	case 7:
+		// unsigned fields the submitter controls: a genuine, correctly signed super-majority, of which only a
+		// minority (< 2/3) prices pair tp; every other recorded validator appears with a commit-flag entry, a
+		// BOGUS signature, prices for everything and a declared power of 0 or less
+		total := new(big.Int)
+		for _, en := range src {
+			total.Add(total, big.NewInt(en.Power))
+		}
+		tp := 1 + r.Intn(2)
+		acc, acc1 := new(big.Int), new(big.Int)
+		for _, en := range members {
+			u := ce.Vals[en.Val]
+			if new(big.Int).Mul(acc, big.NewInt(1000)).Cmp(new(big.Int).Mul(total, big.NewInt(667))) < 0 {
+				acc.Add(acc, big.NewInt(en.Power))
+				m := g.priceMap(ts, 0)
+				nxt := new(big.Int).Add(acc1, big.NewInt(en.Power))
+				if new(big.Int).Mul(nxt, big.NewInt(3)).Cmp(new(big.Int).Mul(total, big.NewInt(2))) < 0 {
+					acc1 = nxt
+				} else {
+					delete(m, c15PairHash(c15PairNames[tp]))
+				}
+				ext := ce.encodeExt(m)
+				votes = append(votes, C15Vote{Addr: u.Addr, Flag: int32(cmtproto.BlockIDFlagCommit), Ext: ext, Sig: ce.sign(u, chain, h1, int64(o.Round), ext),
+					Decl: []int64{1, en.Power + 1}[r.Intn(2)], DeclSet: true})
+			} else {
+				ext := ce.encodeExt(g.priceMap(ts, 0))
+				votes = append(votes, C15Vote{Addr: u.Addr, Flag: int32(cmtproto.BlockIDFlagCommit), Ext: ext, Sig: r.Bytes(64),
+					Decl: []int64{0, 0, -3}[r.Intn(3)], DeclSet: true, Note: "forged-zero-power"})
+			}
+		}
 	case 6: // signers: a subset holding between half and two thirds (if possible); all honest
 		total := new(big.Int)
 		for _, en := range src {
@@ -1402,9 +1447,17 @@ func (g *c15Gen) oracleOp() C15Op {
 	}
 	eci := cometabci.ExtendedCommitInfo{Round: o.Round}
 	for i := range votes {
+		if !votes[i].DeclSet { // declared power: independent of the recorded power
+			rec := int64(1)
+			if id := ce.addrID(votes[i].Addr); id < 900 {
+				rec = g.powerOf(int(id) - 1)
+			}
+			votes[i].Decl = []int64{0, -7, 1, rec, int64(1) << 60}[r.Weighted([]int{10, 5, 35, 40, 10})]
+			votes[i].DeclSet = true
+		}
 		ce.finish(&votes[i], o.Height, o.Round)
 		eci.Votes = append(eci.Votes, cometabci.ExtendedVoteInfo{
-			Validator:          cometabci.Validator{Address: votes[i].Addr, Power: 1},
+			Validator:          cometabci.Validator{Address: votes[i].Addr, Power: votes[i].Decl},
 			VoteExtension:      votes[i].Ext,
 			ExtensionSignature: votes[i].Sig,
 			BlockIdFlag:        cmtproto.BlockIDFlag(votes[i].Flag),
